@@ -8,6 +8,7 @@
 -/
 import CC.Simd.Proof.C13Aux
 import CC.Simd.SrcX86
+import CC.Thm.C13Eq
 namespace CC.Thm.C13
 open CC CC.Simd CC.Thm.C12 CC.Simd.BytesLaws
 
